@@ -29,3 +29,14 @@ package btp
 //@   loop 1: invariant i == ctxs(digestsOf(bd), hasmap(m.pcMap), rangeindex + 1)
 //@   loop 1: invariant hasmap(m.pcMap) == old(hasmap(m.pcMap)) && m.pcMap == old(m.pcMap)
 //@   loop 1: invariant ghost(pc_verified) == i
+
+// C08: a digest decoded from bytes is the digest of exactly those bytes
+//@ property C08
+//@ func NewDigestFromBytes(bytes) (d, err)
+//@   trusted
+//@   pure
+//@   ensures err == nil ==> d != nil && digest_src(d) == seq(bytes) && digest_hash(d) == sha3(seq(bytes))
+//@ func NewDigestFromHashAndBytes(hash, bytes) (d, err)
+//@   trusted
+//@   pure
+//@   ensures err == nil ==> d != nil && digest_src(d) == seq(bytes) && digest_hash(d) == seq(hash)
